@@ -58,6 +58,14 @@ def value(src, p):
         return (n, n + 1, n + 2)
     if vt == "list2":
         return [n, -n]
+    if vt == "dict":                   # a record of attributes
+        return {"kind": f"k{n}", "level": n, 0: n + 1}
+    if vt == "set":
+        return frozenset({n, n + 1}) if n % 2 else {n, -1}
+    if vt == "bytes":
+        return bytes([n % 256, 1])
+    if vt == "nonebool":
+        return None if n % 3 == 0 else bool(n % 3 - 1)
     if vt == "mixed":                  # the kind of value differs from cell to cell
         k = (p[0] + p[1] + p[2]) % 3
         return n if k == 0 else (f"s{n}" if k == 1 else n / 4.0)
@@ -65,6 +73,10 @@ def value(src, p):
 
 
 def same(got, exp):
+    if isinstance(exp, bool):          # a column of booleans hands back numpy booleans
+        return isinstance(got, (bool, np.bool_)) and bool(got) == exp
+    if isinstance(exp, (dict, set, frozenset, bytes)) or exp is None:
+        return type(got) is type(exp) and got == exp
     if isinstance(exp, (tuple, list)):
         return type(got) is type(exp) and len(got) == len(exp) and all(same(g, e) for g, e in zip(got, exp))
     if isinstance(exp, str):
@@ -116,15 +128,22 @@ def run_case(case):
                     raise Violation("cell-value-via-get-cell", f"{where}: component {name!r}: get_cell{p}[{name!r}] = {row[name]!r}, expected {exp[i]!r}")
 
     verify("fresh world")
+    world2 = None
+    if len(case["ops"]) % 2:
+        # a second grid world of another shape, created afterwards and alive throughout, with a cell component of the SAME name
+        world2 = DiscreteWorld(Model(), 2, 3, 0)
+        world2.add_cell_component(NAMES[0], [10, 11, 12, 13, 14, 15])
+        labels.add("second-world-alive")
     for k, op in enumerate(case["ops"]):
         where = f"after op {k} {_short(op)}"
         if op["op"] == "add":
             name = NAMES[int(op["name"]) % NNAMES]
-            if name in live:
+            overwrite = name in live
+            if overwrite and not op.get("again"):
                 continue
             src = op["src"]
             kind = src["kind"]
-            if src.get("vtype") in ("tuple", "list2", "cells", "mixed") and kind not in ("const", "callable", "list"):
+            if src.get("vtype") in ("tuple", "list2", "cells", "mixed", "dict", "set", "bytes", "nonebool") and kind not in ("const", "callable", "list"):
                 src = dict(src, vtype="int")        # sequence-valued / mixed cells only through generators and plain lists
             if kind == "list" and src.get("vtype") == "cells":
                 src = dict(src, vtype="tuple")
@@ -133,12 +152,38 @@ def run_case(case):
             if kind == "callable" and src.get("vtype") == "cells":
                 src = dict(src, vtype="tuple")
                 exp = [value(src, p) for p in cells]
+            dropped, frame_errors = [], []
             if kind == "callable":
                 seen = []
+                other = sorted(live)[int(src.get("other", 0)) % len(live)] if live and (src.get("derive") or src.get("drop_at") is not None) else None
+                drop_at = int(src["drop_at"]) % n if other is not None and src.get("drop_at") is not None else None
 
-                def gen(pos, frame, _src=src, _seen=seen):
+                def gen(pos, frame, _src=src, _seen=seen, _other=other, _drop=drop_at):
+                    # a 'derived' component: the generator is handed the cell table and may consult the layers that exist, and
+                    # may tidy up a scratch layer it no longer needs (a re-entrant removal while the addition is in progress)
+                    if _other is not None and not dropped and src.get("derive"):
+                        i = cells.index(tuple(pos))
+                        try:
+                            if not same(frame[_other].iloc[i], live[_other][i]):
+                                frame_errors.append(f"cell {i}: table handed to the generator shows {_other!r} = {frame[_other].iloc[i]!r}, expected {live[_other][i]!r}")
+                        except Exception as e:      # noqa
+                            frame_errors.append(f"cell {i}: reading {_other!r} from the table handed to the generator raised {type(e).__name__}: {e}")
+                    if _drop is not None and len(_seen) == _drop:
+                        world.remove_cell_component(_other)
+                        dropped.append(_other)
                     _seen.append(tuple(pos))
                     return value(_src, pos)
+                # the same generator dressed as a plain function, a functor object, or a user subclass of one of the bundled
+                # generators that overrides __call__ (the documented contract is "an object with __call__")
+                how = src.get("functor", "function")
+                if how == "object":
+                    gen = type("Functor", (), {"__call__": staticmethod(gen)})()
+                elif how == "const_sub":
+                    gen = type("OffsetConstant", (ConstantGenerator,), {"__call__": lambda self, pos, frame, _g=gen: _g(pos, frame)})(-12345)
+                elif how == "lookup_sub":
+                    gen = type("ShiftedLookup", (LookupGenerator,), {"__call__": lambda self, pos, frame, _g=gen: _g(pos, frame)})([[[-1]]])
+                if how != "function":
+                    labels.add(f"callable-{how}")
                 source = gen
                 nontrivial_src = nontrivial_src or int(src.get("mult", 1)) != 0
             elif kind == "list":
@@ -182,9 +227,25 @@ def run_case(case):
             try:
                 world.add_cell_component(name, source)
             except Exception as e:
+                if overwrite:           # a world may refuse to add a second component under a live name: then nothing changes
+                    labels.add("re-add-refused")
+                    for o in dropped:
+                        del live[o]
+                    verify(where + " (re-adding under a live name was refused)")
+                    continue
                 raise Violation("lookup-add-raised" if kind == "lookup" else "add-raised",
                                 f"{where}: shape {(w, h, d)}: add_cell_component raised {type(e).__name__}: {e}")
+            for o in dropped:
+                live.pop(o, None)
+                labels.add("generator-removes-another-component")
+            if overwrite:               # the component now holds what the NEW source assigns
+                labels.add("re-added-under-live-name")
+                live.pop(name, None)
             live[name] = exp
+            if frame_errors:
+                raise Violation("generator-frame", f"{where}: shape {(w, h, d)}: {frame_errors[0]}")
+            if kind == "callable" and src.get("derive") and other is not None:
+                labels.add("generator-reads-another-component")
             labels.add(f"src-{kind}")
             if kind == "callable" and sorted(seen) != sorted(cells):
                 raise Violation("generator-calls", f"{where}: the generator was called for {len(seen)} positions, expected each of the {n} cells once")
@@ -209,6 +270,9 @@ def run_case(case):
         else:
             raise InvalidCase(op)
         verify(where)
+        if world2 is not None and (list(world2.cells.columns) != ["pos", NAMES[0]] or list(world2.cells[NAMES[0]]) != [10, 11, 12, 13, 14, 15]):
+            raise Violation("other-world-disturbed", f"{where}: a second world holding {NAMES[0]!r} = 10..15 now has columns "
+                                                     f"{list(world2.cells.columns)} / values {list(world2.cells.get(NAMES[0], []))}")
     return {"nontrivial": multi_axis and nontrivial_src and removed_with_two,
             "labels": sorted(labels) + (["columns>=32"] if NNAMES > 32 else []) + [f"zero-axes-{''.join('0' if e == 0 else 'n' for e in (w, h, d))}"], "excluded": excluded}
 
@@ -230,11 +294,12 @@ def strategy(tier):
     src = st.fixed_dictionaries({
         "kind": st.sampled_from(["callable", "callable", "list", "array", "const", "lookup", "lookup"]),
         "mult": st.sampled_from([1, 1, 3, -2, 7]), "off": st.integers(-50, 50),
-        "vtype": st.sampled_from(["int", "int", "float", "str", "tuple", "list2", "cells", "mixed"]),
-        "lowdim": st.booleans(), "numpy": st.booleans()})
+        "vtype": st.sampled_from(["int", "int", "float", "str", "tuple", "list2", "cells", "mixed", "dict", "set", "bytes", "nonebool"]),
+        "lowdim": st.booleans(), "numpy": st.booleans(), "derive": st.sampled_from([False, False, True]), "functor": st.sampled_from(["function", "function", "object", "const_sub", "lookup_sub"]),
+        "other": st.integers(0, 3), "drop_at": st.sampled_from([None, None, None, None, 0, 1, 2, 5, -1])})
     name = st.integers(0, 3)
-    op = wone_of(st.fixed_dictionaries({"op": st.just("add"), "name": name, "src": src}),
-                   st.fixed_dictionaries({"op": st.just("add"), "name": name, "src": src}),
+    op = wone_of(st.fixed_dictionaries({"op": st.just("add"), "name": name, "src": src, "again": st.booleans()}),
+                   st.fixed_dictionaries({"op": st.just("add"), "name": name, "src": src, "again": st.booleans()}),
                    st.fixed_dictionaries({"op": st.just("remove"), "name": name}),
                    st.fixed_dictionaries({"op": st.just("remove_unknown")}))
     from vf.fixtures import near_pow2
